@@ -172,6 +172,9 @@ STICKY_VARIANTS = [
     ("all-sticky+mixed-answers", {**{t: True for t in STICKY_TYPES}, "_mixed": True}),
     # boundary weights: components switched off with weight 0 / 0.0, a negative and a large weight
     ("none-sticky+boundary-weights", {**{t: False for t in STICKY_TYPES}, "_weights": True}),
+    # the browser of one browsing client is uninstalled right after every reset: its user's requests are then unreachable
+    # (a failed request of the agent's own: the page penalty applies)
+    ("all-sticky+browser-removed", {**{t: True for t in STICKY_TYPES}, "_mixed": True, "_remove_browser": "client_2"}),
 ]
 
 
@@ -212,7 +215,7 @@ def sticky_variant(base: Dict[str, Any], flags: Dict[str, bool]) -> Dict[str, An
 
 
 def run_env_episodes(rec: RewardRecorder, cfg: Dict[str, Any], label: str, episodes: int, steps: int,
-                     rng: random.Random, replay: Optional[Dict[str, Any]] = None) -> List[Dict[str, Any]]:
+                     rng: random.Random, replay: Optional[Dict[str, Any]] = None, after_reset=None) -> List[Dict[str, Any]]:
     """Seeded random defender on a scenario with exactly one proxy agent; one trace per episode.
     (``replay`` = a recorded stimulus: its seeds and actions are used instead of fresh ones.)"""
     from primaite.session.environment import PrimaiteGymEnv
@@ -235,6 +238,8 @@ def run_env_episodes(rec: RewardRecorder, cfg: Dict[str, Any], label: str, episo
             rec.load(tr, None, e)
             break
         rec.load(tr, env.game, None)
+        if after_reset is not None:
+            after_reset(env)
         n_act = env.action_space.n
         acts = []
         stim["actions"].append(acts)
@@ -321,8 +326,12 @@ def replay(path: str) -> int:
                              {v: f for v, f in p["own_first"]})
         traces = [run_graph_case(rec, cfg, stim["actions"], stim["env"], rep["detail"].get("meta") or {}, p)]
     else:
+        var = stim["scenario"].partition("/")[2]
+        host = (dict(STICKY_VARIANTS).get(var) or {}).get("_remove_browser")
+        hook = (lambda env: env.game.simulation.apply_request(  # noqa
+            ["network", "node", host, "software_manager", "application", "uninstall", "web-browser"])) if host else None
         traces = run_env_episodes(rec, _shipped_variant(stim["scenario"]), stim["scenario"], 0, stim["steps"],
-                                  random.Random(0), replay=stim)
+                                  random.Random(0), replay=stim, after_reset=hook)
     res = tlc.validate("RewardTrace", traces)
     rc = 0
     for tr, (reached, length), stuck in zip(traces, res["results"], res["stuck"]):
@@ -458,7 +467,12 @@ def main(tier: str, seed: int) -> int:
     episodes, steps = (2, 60) if not thorough else (4, 160)
     n_sticky = 0
     for label, flags in STICKY_VARIANTS:
-        trs = run_env_episodes(rec, sticky_variant(base, flags), f"data_manipulation/{label}", episodes, steps, rng)
+        hook = None
+        if flags.get("_remove_browser"):
+            host = flags["_remove_browser"]
+            hook = lambda env, host=host: env.game.simulation.apply_request(  # noqa
+                ["network", "node", host, "software_manager", "application", "uninstall", "web-browser"])
+        trs = run_env_episodes(rec, sticky_variant(base, flags), f"data_manipulation/{label}", episodes, steps, rng, after_reset=hook)
         traces += trs
         n_sticky += len(trs)
         chk.add_case({"f": "sticky", "variant": label})
